@@ -995,6 +995,7 @@ func checkC10(c *Ctx) {
 	ruleHTXKind(c, r)
 	ruleAltKinds(c, r.h)
 	ruleTextProv(c, r.h)
+	ruleTextKinds(c)
 	ruleJoin(c)
 	ruleWalkWiring(c)
 	effRules(c)
